@@ -47,6 +47,11 @@ CHECKS = {
             '(re-keyed, sorted before use, exact reduction, per-element-key update) or reported; stdout/file sinks only (stderr sinks are '
             'reviewed table entries). With the census of other randomness sources (none reachable) this is sufficient for byte-identical '
             'output for every hash seed, under the stated trusted base.'),
+    'C10': ('other', 'comparison normalisation against the shared window function, store-on-every-path rule, dependency signature of the summary purchase',
+            'R10a the summarisable boundary compares settlement dates with the shared window start, strict on the summarisable side; R10b every re-emitted sale that '
+            'was a superficial loss carries the computed loss explicitly and unforced; R10c the simple-summary purchase = (final balance, cost base / balance, no '
+            'commission) dated at the last summarised settlement date for the given affiliate; R10d summary rows sorted with Tx\'s ordering. The round trip itself is '
+            'NOT decided. ' + PARTIAL % 'C10'),
     'C11': ('other', 'constant-set agreement between writer and reader tables + per-column field mapping agreement + field coverage over MIR',
             'R11a export list = reader set minus deprecated "date"; R11b one writer arm per exported column; R11c the reader consumes every recognised column and '
             'maps each to the field the writer prints it from; R11d every optional column has an in-use trigger guarded by that same field; R11e every CsvTx / Tx / '
@@ -69,6 +74,10 @@ CHECKS = {
     'C16': ('other', 'must-precede (dominator + data dependence) of parse_initial_status before processing in each front end; use-set rule on the opening-position map',
             'R16a every front end starts processing only after, and with the Ok payload of, parse_initial_status; R16b the opening-position map is only queried with '
             'get(&current security), whose result goes to that security\'s bookkeeping call. ' + PARTIAL % 'C16'),
+    'C17': ('other', 'key provenance, loop must-pass-through, operator census and comparison normalisation over the cost tracker',
+            'R17a days keyed by Tx.settlement_date and the observed figure is post_status.total_acb; R17b only the default non-registered affiliate counts and every '
+            'skipped transaction is listed as ignored; R17c same-day observations combine by max and the row total is updated as total - old + new; R17d a day is filed '
+            'under its own year and replaced only for a strictly larger total. Which value is carried forward between days (a known defect) is NOT decided. ' + PARTIAL % 'C17'),
     'C18': ('other', 'index-stability taint (length-changing adaptor before enumerate) + who-may-index rules over MIR',
             'R18a header-name->index maps are built from positions in the unfiltered header row; R18b the converter reads cells only by '
             'header name; R18c rows are indexed only with the stored index. ' + PARTIAL % 'C18'),
@@ -78,8 +87,6 @@ CHECKS = {
 }
 
 NOT_APPLICABLE = {
-    'C10': 'a round trip over histories x cut dates (generate the summary, re-run, compare); whether a generated row falls inside a later 30-day window is date arithmetic on run-time values',
-    'C17': 'maxima and carry-forward over run-time sequences; which run-time value is carried is a semantic choice invisible in shape (its tie-break clause is decided under C09)',
     'C19': 'regex extraction from free text plus a subset-sum search over run-time share counts and dates; "each trade exactly once" depends on values',
 }
 
